@@ -26,6 +26,9 @@ func HarnessC05a() {
 	verifAssert("C01.new.err", err == nil)
 	md := &symModel{}
 	probe := symKey{verifNondetKey("probe")}
+	if n0 := verifBoundOr("N0", 0); n0 > 0 {
+		buildAscending("base", cur, md, n0) // taller first version (height >= 1 from 3 entries on)
+	}
 	cur, md, _ = applyOps("h", cur, md, cfg, K, 2)
 	for round := 0; round < 2; round++ {
 		var r *Root
@@ -60,6 +63,12 @@ func HarnessC05a() {
 		verifAssert("C05.bf", t2.BranchFactor() == cur.BranchFactor())
 		verifAssert("C05.format", t2.nodeFormat == cur.nodeFormat)
 		verifAssert("C05.root-format", r.NodeFormat == string(fmtOf(fm)))
+		if round == 1 && fm == 0 { // (the independent node reader of the harness knows the binary format only)
+			// "the reloaded tree can be modified and persisted again with all the same guarantees":
+			// the version persisted from the modified reloaded tree has the canonical height
+			rep := checkShape(st, r)
+			verifAssert("C05.modified-reloaded-tree-persists-canonically", verifAnd(rep.complete, uint64(r.Height) == ruleHeight(uint64(bf), r.Size, rep.maxLayer)))
+		}
 		checkTreeP("C05.reloaded", t2, md, probe)
 		// the source tree is still what it was
 		checkTreeP("C05.source", cur, md, probe)
